@@ -121,7 +121,10 @@ def nsga2_step(args):
         prob.h.fault_kinds = 3            # transient failures only (ok / TimeoutError / RuntimeError)
         # the pre-state is produced by the real evaluation path (so that whatever Job.evaluate leaves in the
         # individuals after a retried failure is part of it); costs are arbitrary (uninterpreted objective)
-        parents = [NS.IndividualNSGAII([float(i)]) for i in range(N)]
+        # discrete parameters (integer type, coarse precision): the FIRST generation may repeat a design -- 'parent_vectors'
+        # lets two parents share one; every later generation must be free of repeats all the same
+        pv = args.get('parent_vectors') or [float(i) for i in range(N)]
+        parents = [NS.IndividualNSGAII([float(v)]) for v in pv]
         alg.evaluate(parents)
         for p in parents:
             ctx.check('parents-evaluated', p.state != p.State.EVALUATED)
@@ -467,6 +470,12 @@ def configs(tier):
                     'task': 'nsga2_step', 'args': {'N': N, 'm': m, 'ncon': ncon, 'repeats': dict(repeats), 'it': it, 'faults': faults},
                     'weight': 80 ** m * (10 if N >= 3 else 1), 'split': split, 'engine': ve})
     step(2, 1)
+    out.append({'name': 'step-N3-m1-first-generation-repeats-a-design', 'task': 'nsga2_step',
+                'args': {'N': 3, 'm': 1, 'ncon': 0, 'repeats': {}, 'it': 0, 'faults': 0, 'parent_vectors': [0.0, 0.0, 1.0]},
+                'weight': 800, 'split': 32, 'engine': ve})
+    out.append({'name': 'step-N2-m2-first-generation-repeats-a-design', 'task': 'nsga2_step',
+                'args': {'N': 2, 'm': 2, 'ncon': 0, 'repeats': {}, 'it': 0, 'faults': 0, 'parent_vectors': [4.0, 4.0]},
+                'weight': 800, 'split': 32, 'engine': ve})
     step(2, 1, repeats=((1, 0),), it=3)
     step(2, 1, faults=1, split=48)
     step(2, 2, split=64)
